@@ -872,6 +872,16 @@ static void crash_handler(int sig, siginfo_t *si, void *) {
 	const char *name = sig == SIGSEGV ? "SIGSEGV" : sig == SIGBUS ? "SIGBUS" : sig == SIGILL ? "SIGILL" : sig == SIGFPE ? "SIGFPE" : "SIG?";
 	if (prep_armed) siglongjmp(prep_jb, 1);
 	if (!r || !r->active) { signal(sig, SIG_DFL); raise(sig); return; }
+	if (sig == SIGSEGV) {
+		int h = r->eng->on_fault(si->si_addr);
+		if (h == 1) return;
+		if (h == 2) {
+			r->res.stopped = true; r->res.stop_reason = "engine resource budget (lazily committed pages)";
+			if (r->cur != 0) { r->cur = 0; setcontext(&r->main_ctx); }
+			if (crash_jb_armed) siglongjmp(crash_jb, 1);
+			_exit(70);
+		}
+	}
 	if (!r->res.v.set) {
 		r->res.v.set = true; r->res.v.cls = std::string("crash:") + name;
 		char buf[160];
